@@ -109,6 +109,11 @@ impl AsyncDB for LogDb {
         YieldN(k).await;
         if sql.starts_with("fail") {
             Err(LogErr("boom".into()))
+        } else if sql.starts_with("hash3") {
+            Ok(DBOutput::Rows {
+                types: vec![DefaultColumnType::Text],
+                rows: vec![vec!["a".to_string()], vec!["b".to_string()], vec!["c".to_string()]],
+            })
         } else {
             Ok(DBOutput::StatementComplete(0))
         }
@@ -162,6 +167,13 @@ fn file_text(r: &mut Rng, path: &str, kind: &str) -> String {
         }
         if i == fail_at {
             t.push_str(&format!("statement ok\nfail {i} -- F{path}\n\n"));
+        } else if r.chance(1, 5) {
+            // what the parent runner was configured with holds for every file: hash threshold 2 ...
+            let digest = crate::gen::md5_hex(&["a".to_string(), "b".to_string(), "c".to_string()]);
+            t.push_str(&format!("query T\nhash3 -- F{path}\n----\n3 values hashing to {digest}\n\n"));
+        } else if r.chance(1, 5) {
+            // ... and the label PL
+            t.push_str(&format!("onlyif PL\nstatement ok\nselect labelled -- F{path}\n\nskipif PL\nstatement ok\nfail skipped -- F{path}\n\n"));
         } else if r.chance(1, 3) {
             t.push_str(&format!("statement ok\ndbname $__DATABASE__ -- F{path}\n\n"));
         } else {
@@ -201,11 +213,12 @@ pub fn gen_libpar(r: &mut Rng, idx: usize) -> LibCase {
         }
     }
     names.sort();
+    let all_pass = r.chance(1, 3);
     let mut files = vec![];
     let mut kinds = vec![];
     for n in &names {
         let path = format!("{}/{}/{}.slt", dir.to_string_lossy(), sub, n);
-        let kind = *r.pick(&["pass", "pass", "pass", "fail", "parse"]);
+        let kind = if all_pass { "pass" } else { *r.pick(&["pass", "pass", "pass", "fail", "parse"]) };
         std::fs::write(&path, file_text(r, &path, kind)).unwrap();
         files.push(path);
         kinds.push(kind);
@@ -252,6 +265,8 @@ pub fn gen_libpar(r: &mut Rng, idx: usize) -> LibCase {
             if let Some((count, id)) = part {
                 parent.with_partitioner(move |name: &str| name_hash(name) % count == id);
             }
+            parent.with_hash_threshold(2);
+            parent.add_label("PL");
             let res = parent.run_parallel_async(&glob, vec!["h".into()], lib_builder, jobs).await;
             parent.shutdown_async().await;
             res.is_ok()
